@@ -374,6 +374,16 @@ def run(ctx):
         nthr, nctx = C04.std_thrower_obligations(ctx, "R12.12", ents, "parse", callgraph(ctx))
         ctx.note("R12.12: %d std thrower site(s) in %d calling context(s) from parse()" % (nthr, nctx))
         ctx.need("R12.12", "calling contexts walked from parse()", nctx, 20)
+    # ---- R12.14: what becomes a positional and what an option takes
+    ctx.rule("R12.14", "a value token is a positional unless an option takes it: an option takes the FOLLOWING token only when it carries no `=value` itself (R02.3), and the syntax check refuses no well-formed token (R04.4: in greedy mode such a token is a positional)")
+    if ctx.prop == "C12" and not getattr(ctx, "_sharing", False):
+        from .common import share
+        share(ctx, "C02", ("R02.3",), "R12.14", "value-selection obligations shared with C02", 2)
+        share(ctx, "C04", ("R04.4",), "R12.14", "token-syntax obligations shared with C04", 1)
+    # ---- R12.13: the settings travel with the parser
+    ctx.rule("R12.13", "the hand-written move operations of parser take over every data member (accepted count, greedy switch, positional name, groups ...): a parser built in a factory and moved into place accepts the same positionals")
+    from .common import rule_special_members_complete
+    rule_special_members_complete(ctx, "R12.13", lambda cn: cn == NS + "parser", "the moved-to parser keeps its own old setting", minimum=2)
     # ---- R12.9: the accepted count is stored as wide as it is given
     ctx.rule("R12.9", "parser's integral settings are stored at least as wide as the setter's parameter (an accepted count of 2^32 or more is not reduced modulo 2^32)")
     from .common import rule_no_narrowing
